@@ -219,9 +219,12 @@ theorem ttlSec_pos (e j : Nat) (hj : j ≤ 1000) (he : 0 < e) : 1 ≤ ttlSec e j
 theorem ceilSec_pos (ms : Nat) (h : 0 < ms) : 1 ≤ ceilSec ms := by
   unfold ceilSec; omega
 
-theorem cfg_pos (exp nf : Nat) : 0 < (Cfg.ofOptions exp nf).exp ∧ 0 < (Cfg.ofOptions exp nf).nf := by
-  unfold Cfg.ofOptions defaultExpiryMs defaultNotFoundExpiryMs
+theorem newOptionsMs_pos (e n : Int) : 0 < (newOptionsMs e n).1 ∧ 0 < (newOptionsMs e n).2 := by
+  unfold newOptionsMs defaultExpiryMs defaultNotFoundExpiryMs
   constructor <;> (simp only []; split <;> omega)
+
+theorem cfg_pos (o : Options) : 0 < (Cfg.ofOptions o).exp ∧ 0 < (Cfg.ofOptions o).nf :=
+  newOptionsMs_pos _ _
 
 /-- what a Take may change in the cache: only its own key; a written entry is `loaded`, holds the placeholder
 with the not-found TTL or a row with the expiry TTL. -/
